@@ -171,6 +171,8 @@ impl Property for C11 {
                 }
             })
             .collect();
+        let mut exprs = exprs;
+        add_empty_member(t, &mut exprs);
         let mut paths = pat_pool(t, &exprs, 1);
         // mutants of the invariant text (if any) are derived in `check`, which needs wax's answer;
         // here: case mutants of every witness
